@@ -44,11 +44,64 @@ def _all_functions(prog):
     return sorted(prog.functions.values(), key=lambda f: f.qual)
 
 
-@rule("RL1", "who-may-open and ownership pairing of handle/owner fields", floor=5)
+def _scn(**answers):
+    """scenario oracle over canonical conditions: decides the input-dependent tests of the constructors"""
+    def oracle(c):
+        if not isinstance(c, tuple) or not c:
+            return None
+        if c[0] == "call" and c[1] == "hasattr" and len(c[2]) == 2 and c[2][1] == ("const", "read"):
+            p = c[2][0]
+            who = p[1] if p[0] == "param" else None
+            return answers.get("stream:%s" % who, answers.get("stream"))
+        if c[0] == "cmp" and c[1] == "==" and c[3][0] == "const" and c[3][1] in (b"TDSh", b"TDSm"):
+            return answers.get("tag") == c[3][1]
+        if c[0] == "method" and c[1] == "endswith" and c[3] and c[3][0] == ("const", ".tdms_index"):
+            return answers.get("index_path")
+        if c[0] == "call" and c[1] in ("os.path.isfile", "os.path.exists", "posixpath.isfile"):
+            return answers.get("isfile")
+        if c[0] == "call" and c[1] == "isinstance" and len(c[2]) == 2 and c[2][0] == ("param", "index_file"):
+            return answers.get("index_is_bool")
+        if c == ("param", "index_file"):
+            return answers.get("index_true")
+        return None
+    return oracle
+
+
+READER_SCENARIOS = [
+    ("stream holding an index (TDSh)", dict(stream=True, tag=b"TDSh")),
+    ("stream holding data (TDSm)", dict(stream=True, tag=b"TDSm")),
+    ("path of a .tdms_index file", dict(stream=False, index_path=True)),
+    ("path of a .tdms file without index", dict(stream=False, index_path=False, isfile=False)),
+    ("path of a .tdms file with an index beside it", dict(stream=False, index_path=False, isfile=True)),
+]
+WRITER_SCENARIOS = [
+    ("data stream and index stream", {"stream:file": True, "stream:index_file": True}),
+    ("data stream, no index", {"stream:file": True, "stream:index_file": False, "index_is_bool": True, "index_true": False}),
+    ("path with index file", {"stream:file": False, "stream:index_file": False, "index_is_bool": True, "index_true": True}),
+    ("path without index file", {"stream:file": False, "stream:index_file": False, "index_is_bool": True, "index_true": False}),
+]
+
+
+def construct(prog, cq, answers, then=()):
+    """Abstractly run <class>.__init__ (and further methods) under a scenario; -> set of final states"""
+    from .resinterp import ResInterp, initial_state
+    cls = prog.cls(cq)
+    owners = OWNERS[cq]
+    handles = {"self." + h for h in owners}
+    ofields = {"self." + p_ for p_ in owners.values()}
+    it = ResInterp(prog, cls, handles, modules={cls.module.name}, scenario=_scn(**answers), owner_fields=ofields)
+    states = frozenset([initial_state({})])
+    for m in ("__init__",) + tuple(then):
+        fi = prog.func("%s.%s" % (cq, m))
+        states = it.run_func(fi, cls, states)
+    return states
+
+
+@rule("RL1", "who-may-open and ownership pairing of handle/owner fields", floor=12)
 def rl1(ctx, R):
+    from .resinterp import sget
     prog = ctx.prog
-    for q in OPEN_OWNER_FUNCS:
-        prog.func(q)
+    owner_classes = {prog.cls(q) for q in OWNERS}
     n_open = 0
     for fi in _all_functions(prog):
         with_exprs = set()
@@ -63,68 +116,39 @@ def rl1(ctx, R):
             key = "%s::open(%s)" % (fi.qual, unparse(n.args[0]) if n.args else "")
             if id(n) in with_exprs:
                 R.ok(key, fi.where(n), "open() as context manager: released by the with statement")
-                continue
-            owner_cls = OPEN_OWNER_FUNCS.get(fi.qual)
-            if owner_cls is None:
-                R.violation(key, fi.where(n),
-                            "open() outside the owning functions %s: nothing pairs this handle with an "
-                            "owner field, so no close() site is obliged to release it" % sorted(OPEN_OWNER_FUNCS))
-                continue
-            # must be `self.<handle> = open(self.<owner>, ...)`
-            parent = _assign_parent(fi.node, n)
-            handle = _self_attr(parent.targets[0]) if parent is not None and len(parent.targets) == 1 else None
-            owners = OWNERS[owner_cls]
-            arg_owner = _self_attr(n.args[0]) if n.args else None
-            if handle in owners and arg_owner == owners[handle]:
-                R.ok(key, fi.where(n), "handle self.%s opened from its owner field self.%s" % (handle, arg_owner))
+            elif fi.cls in owner_classes:
+                R.ok(key, fi.where(n), "open() inside a handle-owning class (ownership decided by the constructor scenarios below)")
             else:
-                R.violation(key, fi.where(n),
-                            "open() result is not stored as self.<handle> = open(self.<paired owner field>, ...) "
-                            "(handle=%r, argument=%r, pairing=%r)" % (handle, arg_owner, owners))
-    # mode separation in the two constructors: stream mode never sets an owner field,
-    # path mode never stores the caller's object into a handle field
-    for q, owner_cls, param in (("reader.TdmsReader.__init__", "reader.TdmsReader", "tdms_file"),
-                                ("writer.TdmsWriter.__init__", "writer.TdmsWriter", "file")):
-        fi = prog.func(q)
-        params = fi.params
-        if param not in params:
-            param = params[1] if len(params) > 1 else param
-        mode_if = None
-        for n in walk_body(fi.node):
-            if isinstance(n, ast.If) and isinstance(n.test, ast.Call) and call_name(n.test) == "hasattr" \
-                    and len(n.test.args) == 2 and dotted(n.test.args[0]) == param:
-                mode_if = n
-                break
-        if mode_if is None:
-            raise AnchorMissing("%s: stream-vs-path test hasattr(%s, ...)" % (q, param))
-        owners = OWNERS[owner_cls]
-        stream_params = {param, "index_file"}
-        for branch, stmts in (("stream", mode_if.body), ("path", mode_if.orelse)):
-            for s in stmts:
-                for n in walk_shallow(s):
-                    if isinstance(n, ast.Assign):
-                        for t in n.targets:
-                            a = _self_attr(t)
-                            is_none = isinstance(n.value, ast.Constant) and n.value.value is None
-                            if a in owners.values() and not is_none:
-                                key = "%s::%s-mode store self.%s" % (q, branch, a)
-                                R.check(branch == "path", key, fi.where(n),
-                                        "owner field set in path mode only",
-                                        "owner field self.%s is set to a non-None value in stream mode: close() "
-                                        "would then close a stream supplied by the caller" % a)
-                            if a in owners and not is_none:
-                                from_open = isinstance(n.value, ast.Call) and is_builtin_open(n.value, fi.module)
-                                from_param = dotted(n.value) in stream_params
-                                key = "%s::%s-mode store self.%s" % (q, branch, a)
-                                if branch == "stream":
-                                    R.check(from_param and not from_open, key, fi.where(n),
-                                            "caller's stream stored as handle, owner field stays None",
-                                            "handle field assigned from something other than the caller's stream in stream mode")
-                                else:
-                                    R.check(from_open, key, fi.where(n),
-                                            "handle opened by the library in path mode",
-                                            "handle field self.%s assigned from %s in path mode while its owner field "
-                                            "marks it as library-owned" % (a, unparse(n.value)))
+                R.violation(key, fi.where(n), "open() outside the handle-owning classes %s: nothing pairs this handle with an owner field, so no close() "
+                            "site is obliged to release it" % sorted(OWNERS))
+    # ownership invariant after construction, per input scenario
+    for cq, scenarios, then in (("reader.TdmsReader", READER_SCENARIOS, ()), ("writer.TdmsWriter", WRITER_SCENARIOS, ("open",))):
+        owners = OWNERS[cq]
+        init = prog.func(cq + ".__init__")
+        for name, answers in scenarios:
+            outs = construct(prog, cq, answers, then)
+            key = "%s::%s" % (cq, name)
+            if not outs:
+                R.undecided(key, init.where(), "constructor has no normal exit in this scenario")
+                continue
+            bad = None
+            for st in outs:
+                for h, p_ in owners.items():
+                    origin = sget(st, "origin", "self." + h)
+                    hn = sget(st, "null", "self." + h)
+                    pn = sget(st, "null", "self." + p_)
+                    owned = pn == NOTNONE
+                    if origin == "open" and not owned:
+                        bad = "self.%s is opened by the library but its owner field self.%s is not set: close() will never release it" % (h, p_)
+                    elif origin and origin.startswith("caller") and owned:
+                        bad = "self.%s holds the caller's object (%s) while its owner field self.%s is set: close() would close a stream supplied by the caller" % (h, origin, p_)
+                    elif owned and origin != "open":
+                        bad = "owner field self.%s is set although self.%s was not opened by the library (%s)" % (p_, h, origin or hn)
+            if bad:
+                R.violation(key, init.where(), "after construction from a %s: %s" % (name, bad))
+            else:
+                summary = {h: sget(next(iter(outs)), "origin", "self." + h) or "None" for h in owners}
+                R.ok(key, init.where(), "handles %s, owner fields set exactly for library-opened handles" % summary)
     R.note("open() call sites in package: %d" % n_open)
 
 
@@ -222,63 +246,73 @@ def rl2(ctx, R):
                             unparse(A.ast), target), path=cfg.describe_path(wit))
 
 
+def _owner_scenarios(cq):
+    owners = OWNERS[cq]
+    allopen = {}
+    for h, p_ in owners.items():
+        allopen["self." + h] = NOTNONE
+        allopen["self." + p_] = NOTNONE
+    return owners, allopen
+
+
+def _run_method(prog, cls, fi, facts):
+    from .resinterp import ResInterp, initial_state
+    handles = {"self." + h for h in OWNERS[cls.qual]}
+    it = ResInterp(prog, cls, handles, modules={cls.module.name})
+    outs = it.run_func(fi, cls, frozenset([initial_state(facts)]))
+    return outs
+
+
 @rule("RL4", "close() releases every owned handle and clears both handle fields", floor=8)
 def rl4(ctx, R):
+    from .resinterp import sget
     prog = ctx.prog
     for cq, fq in (("reader.TdmsReader", "reader.TdmsReader.close"), ("writer.TdmsWriter", "writer.TdmsWriter.close")):
         fi = prog.func(fq)
-        cfg = ctx.cfg(fi)
-        owners = OWNERS[cq]
-        allopen = {}
-        for h, p in owners.items():
-            allopen["self." + h] = NOTNONE
-            allopen["self." + p] = NOTNONE
-        for h, p in owners.items():
-            # (a) owned and open -> every normal path closes it
-            ok, wit = cfg.always_passes(cfg.entry, lambda n, h=h: _node_has_call(n, _closes_handle(h)),
-                                        targets={cfg.exit}, assume=assume_from(allopen), follow_exc=False)
-            key = "%s::owned self.%s is closed" % (fq, h)
-            if ok:
-                R.ok(key, fi.where(), "with self.%s set, every normal path through close() calls self.%s.close()" % (p, h))
-            else:
-                R.violation(key, fi.where(), "close() can return without closing the library-owned self.%s" % h,
-                            path=cfg.describe_path(wit))
-            # (b) caller-supplied (owner field None) -> no path closes it
+        cls = prog.cls(cq)
+        owners, allopen = _owner_scenarios(cq)
+        outs = _run_method(prog, cls, fi, allopen)
+        if not outs:
+            R.violation(fq + "::returns", fi.where(), "close() has no normal exit when everything is open")
+            continue
+        for h, p_ in owners.items():
+            hn = "self." + h
+            # (a) owned and open -> closed on every normal path
+            missing = [st for st in outs if not sget(st, "closed", hn)]
+            R.check(not missing, "%s::owned %s is closed" % (fq, hn), fi.where(), "with self.%s set, every normal path through close() closes %s" % (p_, hn),
+                    "close() can return without closing the library-owned %s" % hn)
+            # (c) cleared
+            notclr = [st for st in outs if sget(st, "null", hn) != "none"]
+            R.check(not notclr, "%s::%s cleared" % (fq, hn), fi.where(), "%s = None on every normal path (needed by the use-after-close guard)" % hn,
+                    "close() can return with %s still referencing the closed file: later reads would not be refused by the guard" % hn)
+            # (b) caller-supplied (owner field None) -> never closed
             facts = dict(allopen)
-            facts["self." + p] = NONE
-            r = cfg.reach([cfg.entry], assume=assume_from(facts))
-            bad = [n for n in r if _node_has_call(n, _closes_handle(h))]
-            key = "%s::caller-supplied self.%s is not closed" % (fq, h)
-            if bad:
-                R.violation(key, fi.where(bad[0].ast), "self.%s.close() is reachable although self.%s is None "
-                            "(the stream belongs to the caller)" % (h, p), path=cfg.describe_path(cfg.path_to(bad[0])))
-            else:
-                R.ok(key, fi.where(), "with self.%s None, self.%s.close() is unreachable" % (p, h))
-            # (c) handle field cleared on every normal path
-            def clears(n, h=h):
-                return n.kind == "stmt" and isinstance(n.ast, ast.Assign) and any(_self_attr(t) == h for t in n.ast.targets) \
-                    and isinstance(n.ast.value, ast.Constant) and n.ast.value.value is None
-            ok, wit = cfg.always_passes(cfg.entry, clears, targets={cfg.exit}, assume=assume_from(allopen), follow_exc=False)
-            key = "%s::self.%s cleared" % (fq, h)
-            if ok:
-                R.ok(key, fi.where(), "self.%s = None on every normal path (needed by the use-after-close guard)" % h)
-            else:
-                R.violation(key, fi.where(), "close() can return with self.%s still referencing the closed file: "
-                            "later reads would not be refused by the guard" % h, path=cfg.describe_path(wit))
+            facts["self." + p_] = NONE
+            outs_b = _run_method(prog, cls, fi, facts)
+            bad = [sget(st, "closed", hn) for st in outs_b if sget(st, "closed", hn)]
+            R.check(not bad, "%s::caller-supplied %s is not closed" % (fq, hn), fi.where(), "with self.%s None, %s is never closed" % (p_, hn),
+                    "%s is closed although self.%s is None, i.e. the stream belongs to the caller (%s)" % (hn, p_, bad[0] if bad else ""))
     # delegations: TdmsFile.close -> reader.close ; __exit__ -> close
     fi = prog.func("tdms.TdmsFile.close")
     cfg = ctx.cfg(fi)
-    ok, wit = cfg.always_passes(cfg.entry, lambda n: _node_has_call(n, lambda c: call_name(c) == "self._reader.close"),
-                                targets={cfg.exit}, assume=assume_from({"self._reader": NOTNONE}), follow_exc=False)
+    from .region import nodes_reaching
+    closers = nodes_reaching(ctx, fi, cfg, {"reader.TdmsReader.close"})
+    aliases = _aliases_of(fi, "self._reader")
+
+    def is_close(n):
+        return n in closers or _node_has_call(n, lambda c: call_name(c) in {a + ".close" for a in aliases})
+    facts = {a: NOTNONE for a in aliases}
+    ok, wit = cfg.always_passes(cfg.entry, is_close, targets={cfg.exit}, assume=assume_from(facts), follow_exc=False)
     R.check(ok, "tdms.TdmsFile.close::delegates to reader.close", fi.where(),
-            "with a live reader every normal path calls self._reader.close()",
+            "with a live reader every normal path calls the reader's close()",
             "TdmsFile.close() can return without closing its reader")
     for q in ("tdms.TdmsFile.__exit__", "writer.TdmsWriter.__exit__"):
         fi = prog.func(q)
         cfg = ctx.cfg(fi)
-        ok, wit = cfg.always_passes(cfg.entry, lambda n: _node_has_call(n, lambda c: call_name(c) == "self.close"),
-                                    targets={cfg.exit, cfg.raise_exit})
-        R.check(ok, "%s::calls self.close()" % q, fi.where(), "every path through __exit__ calls self.close()",
+        target = q.rsplit(".", 1)[0] + ".close"
+        cl = nodes_reaching(ctx, fi, cfg, {target})
+        ok, wit = cfg.always_passes(cfg.entry, lambda n: n in cl, targets={cfg.exit, cfg.raise_exit})
+        R.check(ok, "%s::calls self.close()" % q, fi.where(), "every path through __exit__ calls close()",
                 "leaving the with-block does not always close the file")
     for q in ("tdms.TdmsFile.__enter__", "writer.TdmsWriter.__enter__"):
         prog.func(q)
@@ -291,37 +325,77 @@ def rl4(ctx, R):
                 "destination writer is closed by its with-block", "destination writer is not used as a context manager")
 
 
+def _aliases_of(fi, dname):
+    """local names that are plain aliases of `dname` in fi (x = self._reader / self._reader = x)"""
+    out = {dname}
+    changed = True
+    while changed:
+        changed = False
+        for n in walk_body(fi.node):
+            if isinstance(n, ast.Assign):
+                names = [dotted(t) for t in n.targets] + [dotted(n.value)]
+                names = [x for x in names if x]
+                if any(x in out for x in names) and all(isinstance(t, (ast.Name, ast.Attribute)) for t in n.targets) and dotted(n.value):
+                    for x in names:
+                        if x not in out:
+                            out.add(x)
+                            changed = True
+    return out
+
+
 @rule("RL5", "close() is idempotent (reader and file)", floor=2)
 def rl5(ctx, R):
+    from .resinterp import sget
     prog = ctx.prog
-    cases = [("reader.TdmsReader.close", {"self._file": NONE, "self._index_file": NONE,
-                                          "self._file_path": NOTNONE, "self._index_file_path": NOTNONE}),
-             ("tdms.TdmsFile.close", {"self._reader": NONE})]
-    for q, post in cases:
-        fi = prog.func(q)
-        cfg = ctx.cfg(fi)
-        r = cfg.reach([cfg.entry], assume=assume_from(post))
-        bad = None
-        for n in sorted(r, key=lambda n: n.id):
-            if n.ast is None or n.kind in ("test",):
-                continue
-            for a in walk_shallow(n.ast if n.kind != "for" else n.ast.iter):
-                if isinstance(a, ast.Attribute) and isinstance(a.ctx, ast.Load):
-                    d = dotted(a.value)
-                    if d in post and post[d] == NONE:
-                        bad = (n, a)
-                        break
-            if bad:
+    fi = prog.func("reader.TdmsReader.close")
+    cls = prog.cls("reader.TdmsReader")
+    post = {"self._file": NONE, "self._index_file": NONE, "self._file_path": NOTNONE, "self._index_file_path": NOTNONE}
+    outs = _run_method(prog, cls, fi, post)
+    bad = [x for st in outs for x in st if x[0] == "deref-none"]
+    R.check(bool(outs) and not bad, "reader.TdmsReader.close::second call", fi.where(), "re-interpreted in its own post-state, close() touches no released handle",
+            "in the state left by a first close(), a released handle is dereferenced (%s)" % (bad[0][2] if bad else "no normal exit"))
+    fi = prog.func("tdms.TdmsFile.close")
+    cfg = ctx.cfg(fi)
+    aliases = _aliases_of(fi, "self._reader")
+    post = {a: NONE for a in aliases}
+    r = cfg.reach([cfg.entry], assume=assume_from(post))
+    bad = None
+    for n in sorted(r, key=lambda n: n.id):
+        if n.ast is None or n.kind in ("test",):
+            continue
+        for a in walk_shallow(n.ast if n.kind != "for" else n.ast.iter):
+            if isinstance(a, ast.Attribute) and isinstance(a.ctx, ast.Load) and dotted(a.value) in post:
+                bad = (n, a)
                 break
-        key = "%s::second call" % q
         if bad:
-            R.violation(key, fi.where(bad[0].ast), "in the state left by a first close(), `%s` dereferences None" % unparse(bad[1]),
-                        path=cfg.describe_path(cfg.path_to(bad[0])))
-        else:
-            R.ok(key, fi.where(), "re-interpreted in its own post-state, close() touches no released handle")
-    wf = prog.func("writer.TdmsWriter.close")
+            break
+    R.check(bad is None, "tdms.TdmsFile.close::second call", fi.where(), "a second close() finds no reader and does nothing",
+            "in the state left by a first close(), `%s` dereferences None" % (unparse(bad[1]) if bad else ""))
     R.note("writer.TdmsWriter.close is not idempotent in path mode (self._file is None after the first call); the "
            "property's sentence on repeated close() concerns reading, so this is a note, not a violation")
+
+
+def _guard_nodes(ctx, fi, cfg, depth=0):
+    """CFG nodes of fi after which _ensure_open() is known to have run: a direct call, or a call of a
+    self-method all of whose normal paths pass such a node."""
+    prog = ctx.prog
+    out = []
+    for n in cfg.where(lambda n: bool(node_calls(n))):
+        for c in node_calls(n):
+            cn = call_name(c) or ""
+            if cn == "self._ensure_open":
+                out.append(n)
+            elif cn.startswith("self.") and cn.count(".") == 1 and fi.cls is not None and depth < 3:
+                found = prog.lookup(fi.cls, cn[5:])
+                if found and found[0] == "method" and found[2] is not fi and not found[2].is_generator:
+                    g = found[2]
+                    gcfg = ctx.cfg(g)
+                    inner = _guard_nodes(ctx, g, gcfg, depth + 1)
+                    if inner:
+                        ok, _ = gcfg.always_passes(gcfg.entry, lambda m: m in inner, targets={gcfg.exit}, follow_exc=False)
+                        if ok:
+                            out.append(n)
+    return out
 
 
 @rule("RL6", "every reader method that touches the data stream is guarded by _ensure_open", floor=4)
@@ -329,27 +403,34 @@ def rl6(ctx, R):
     prog = ctx.prog
     cls = prog.cls("reader.TdmsReader")
     ens = prog.func("reader.TdmsReader._ensure_open")
-    # _ensure_open raises when both handles are None
-    cfg = ctx.cfg(ens)
-    r = cfg.reach([cfg.entry], assume=assume_from({"self._file": NONE, "self._index_file": NONE}))
-    R.check(cfg.exit not in r and cfg.raise_exit in r, "reader.TdmsReader._ensure_open::raises when closed", ens.where(),
-            "with both handle fields None every path raises", "_ensure_open can return normally after close()")
+    outs = _run_method(prog, cls, ens, {"self._file": NONE, "self._index_file": NONE})
+    R.check(not outs, "reader.TdmsReader._ensure_open::raises when closed", ens.where(),
+            "with both handle fields None no path returns normally", "_ensure_open can return normally after close()")
+    outs = _run_method(prog, cls, ens, {"self._file": NOTNONE, "self._index_file": NONE})
+    R.check(bool(outs), "reader.TdmsReader._ensure_open::passes when open", ens.where(), "returns normally while a handle is held",
+            "_ensure_open never returns normally")
 
     def touches_stream(fi):
         for n in walk_body(fi.node):
             if isinstance(n, ast.Attribute) and _self_attr(n) == "_file" and isinstance(n.ctx, ast.Load):
                 return True
         return False
-
-    def guarded(n):
-        return _node_has_call(n, lambda c: call_name(c) == "self._ensure_open")
     exempt = {"__init__": "constructor", "close": "releases the handles", "read_metadata": "own None tests, raises ValueError",
               "is_index_file_only": "reads the field for a None test only", "_ensure_open": "the guard itself"}
+    # helpers of exempt methods that only test the fields (predicates) are exempt too
     cg = ctx.callgraph()
     for name, fi in sorted(cls.methods.items()):
         if not touches_stream(fi) or name in exempt:
             continue
+        only_tests = all(isinstance(p_, ast.Compare) for p_ in _parents_of_file_loads(fi))
+        if only_tests:
+            R.ok("reader.TdmsReader.%s" % name, fi.where(), "only compares self._file with None")
+            continue
         cfg = ctx.cfg(fi)
+        guards = _guard_nodes(ctx, fi, cfg)
+
+        def guarded(n, guards=guards):
+            return n in guards
         uses = cfg.where(lambda n: n.ast is not None and any(
             isinstance(a, ast.Attribute) and _self_attr(a) == "_file" for a in walk_shallow(
                 n.ast.iter if n.kind == "for" else (n.ast.context_expr if n.kind in ("with_enter", "with_exit") else n.ast))))
@@ -361,7 +442,7 @@ def rl6(ctx, R):
                 break
         key = "reader.TdmsReader.%s" % name
         if unguarded is None:
-            R.ok(key, fi.where(), "every use of self._file is dominated by self._ensure_open()")
+            R.ok(key, fi.where(), "every use of self._file is dominated by a call that runs self._ensure_open()")
             continue
         if not name.startswith("_"):
             R.violation(key, fi.where(unguarded[0].ast), "public method uses self._file without a dominating self._ensure_open(): "
@@ -376,11 +457,17 @@ def rl6(ctx, R):
         all_ok = True
         for e in callers:
             cf = prog.functions[e.caller]
+            if cf.name in exempt:
+                continue
             ccfg = ctx.cfg(cf)
+            cguards = _guard_nodes(ctx, cf, ccfg)
             cnodes = [n for n in ccfg.where(lambda n: any(c is e.node for c in node_calls(n)))]
             for cn in cnodes:
-                ok, wit = ccfg.dominated_by(cn, guarded)
-                if not ok and cf.name not in exempt:
+                ok, wit = ccfg.dominated_by(cn, lambda n: n in cguards)
+                if not ok:
+                    # the caller may itself be a private helper whose callers are guarded
+                    if cf.name.startswith("_") and _callers_guarded(ctx, cf, exempt, 2):
+                        continue
                     all_ok = False
                     R.violation(key + "<-" + cf.qual, cf.where(cn.ast), "call of the unguarded helper %s is itself not dominated by "
                                 "self._ensure_open()" % name, path=ccfg.describe_path(wit))
@@ -388,71 +475,91 @@ def rl6(ctx, R):
             R.ok(key, fi.where(), "private helper, all %d call sites are dominated by self._ensure_open() (or are in read_metadata)" % len(callers))
 
 
-@rule("RL7", "every .close() call closes an owned handle under its owner-field guard, or delegates", floor=9)
-def rl7(ctx, R):
+def _parents_of_file_loads(fi):
+    out = []
+    for n in walk_body(fi.node):
+        for ch in ast.iter_child_nodes(n):
+            if isinstance(ch, ast.Attribute) and _self_attr(ch) == "_file" and isinstance(ch.ctx, ast.Load):
+                out.append(n)
+    return out or [None]
+
+
+def _callers_guarded(ctx, fi, exempt, depth):
     prog = ctx.prog
-    for fi in _all_functions(prog):
-        close_calls = [c for c in walk_body(fi.node) if isinstance(c, ast.Call) and isinstance(c.func, ast.Attribute)
-                       and c.func.attr == "close"]
-        if not close_calls:
+    cg = ctx.callgraph()
+    callers = [e for e in cg.callers(fi.qual) if e.kind in ("self", "direct", "receiver")]
+    if not callers or depth <= 0:
+        return False
+    for e in callers:
+        cf = prog.functions[e.caller]
+        if cf.name in exempt:
             continue
-        cfg = ctx.cfg(fi)
-        for c in close_calls:
+        ccfg = ctx.cfg(cf)
+        cguards = _guard_nodes(ctx, cf, ccfg)
+        for cn in ccfg.where(lambda n: any(c is e.node for c in node_calls(n))):
+            ok, _ = ccfg.dominated_by(cn, lambda n: n in cguards)
+            if not ok and not (cf.name.startswith("_") and _callers_guarded(ctx, cf, exempt, depth - 1)):
+                return False
+    return True
+
+
+@rule("RL7", "streams supplied by the caller are never closed; every other close() delegates to a package close()", floor=9)
+def rl7(ctx, R):
+    from .resinterp import ResInterp, sget
+    prog = ctx.prog
+    cg = ctx.callgraph()
+    # (1) semantic part: for every input scenario and every method of the handle-owning classes,
+    #     no path closes a handle that holds the caller's stream
+    for cq, scenarios, then in (("reader.TdmsReader", READER_SCENARIOS, ()), ("writer.TdmsWriter", WRITER_SCENARIOS, ("open",))):
+        cls = prog.cls(cq)
+        owners = OWNERS[cq]
+        handles = {"self." + h for h in owners}
+        ofields = {"self." + p_ for p_ in owners.values()}
+        for name, answers in scenarios:
+            post = construct(prog, cq, answers, then)
+            caller_handles = {h for st in post for h in handles if (sget(st, "origin", h) or "").startswith("caller")}
+            if not caller_handles:
+                continue
+            for mname, fi in sorted(cls.methods.items()):
+                if mname in ("__init__",) + tuple(then):
+                    continue
+                it = ResInterp(prog, cls, handles, modules={cls.module.name}, scenario=_scn(**answers), owner_fields=ofields)
+                outs = it.run_func(fi, cls, post)
+                bad = [(h, sget(st, "closed", h)) for st in outs for h in caller_handles if sget(st, "closed", h)]
+                key = "%s.%s::%s" % (cq, mname, name)
+                if bad:
+                    R.violation(key, fi.where(), "constructed from a %s, %s() closes %s, which holds the stream supplied by the caller (%s)" % (
+                        name, mname, bad[0][0], bad[0][1]))
+                else:
+                    R.ok(key, fi.where(), "no path closes the caller's stream(s) %s" % sorted(caller_handles))
+    # (2) every other .close() call in the package delegates to a package close method or releases a local open()
+    owner_classes = {prog.cls(q) for q in OWNERS}
+    covered = set()      # functions only reached from handle-owning methods (interpreted with them in part 1)
+    for f in prog.functions.values():
+        if f.cls is None and f.module.name in ("reader", "writer"):
+            callers = {e.caller for e in cg.callers(f.qual)}
+            if callers and all(prog.functions[c].cls in owner_classes or c in covered for c in callers):
+                covered.add(f.qual)
+    for fi in _all_functions(prog):
+        if fi.cls in owner_classes or fi.qual in covered:
+            continue
+        for c in walk_body(fi.node):
+            if not (isinstance(c, ast.Call) and isinstance(c.func, ast.Attribute) and c.func.attr == "close"):
+                continue
             recv = dotted(c.func.value) or unparse(c.func.value)
             key = "%s::%s.close()" % (fi.qual, recv)
-            where = fi.where(c)
-            cnodes = cfg.where(lambda n: any(x is c for x in node_calls(n)))
-            if not cnodes:
-                R.note("unreachable close call %s" % key)
+            targets = [e.callee for e in cg.callees(fi.qual) if e.node is c and e.kind in ("self", "direct", "receiver", "super")]
+            if targets and all(t in CLOSE_METHODS for t in targets):
+                R.ok(key, fi.where(c), "delegates to %s, which applies the ownership guards" % ", ".join(sorted(set(targets))))
                 continue
-            # delegation to a package close method
-            if recv == "self" and fi.cls is not None and ("%s.%s.close" % (fi.module.name, fi.cls.name)) in CLOSE_METHODS:
-                R.ok(key, where, "delegates to the class's own close()")
-                continue
-            if recv in ("self._reader", "tdms_file", "new_file") :
-                R.ok(key, where, "delegates to a package close() method (reader/file/writer), which applies the ownership guards")
-                continue
-            owner_cls = None
-            if fi.cls is not None and fi.cls.qual in OWNERS:
-                owner_cls = fi.cls.qual
-            handle = None
-            alias_defs = None
-            if recv.startswith("self.") and owner_cls and recv[5:] in OWNERS[owner_cls]:
-                handle = recv[5:]
-            elif owner_cls and isinstance(c.func.value, ast.Name):
-                # local alias of a handle field: find its definitions and paired mode flags
-                alias_defs = _alias_defs(fi, c.func.value.id, OWNERS[owner_cls])
-            if handle is None and alias_defs is None:
-                # locally owned: x = open(...) in this function dominating the close
-                lname = c.func.value.id if isinstance(c.func.value, ast.Name) else None
-                local_open = lname and any(isinstance(n, ast.Assign) and isinstance(n.value, ast.Call)
-                                           and is_builtin_open(n.value, fi.module)
-                                           and any(isinstance(t, ast.Name) and t.id == lname for t in n.targets)
-                                           for n in walk_body(fi.node))
-                if local_open:
-                    R.ok(key, where, "closes a file opened in the same function")
-                else:
-                    R.violation(key, where, "close() on %r, which is not a library-owned handle field, a local open() "
-                                "result or a package object: a stream supplied by the caller may be closed" % recv)
-                continue
-            if alias_defs is not None:
-                ok = all(_guarded_alias(cfg, cn, alias_defs, OWNERS[owner_cls]) for cn in cnodes)
-                R.check(ok, key, where,
-                        "local alias of %s; the guard selects the library-owned handle and tests its owner field" % sorted({h for h, _ in alias_defs}),
-                        "%s aliases %s and is closed on a path where the aliased handle's owner field has not been tested "
-                        "non-None: a caller-supplied stream would be closed" % (recv, sorted({h for h, _ in alias_defs})))
-                continue
-            owner = OWNERS[owner_cls][handle]
-            all_ok = True
-            for cn in cnodes:
-                guard_ok = _guarded_by_owner(cfg, cn, owner) or _dominated_by_open(cfg, cn, handle, fi)
-                if not guard_ok:
-                    all_ok = False
-            if all_ok:
-                R.ok(key, where, "closes self.%s only where self.%s is known non-None (library-owned) or right after its own open()" % (handle, owner))
+            lname = c.func.value.id if isinstance(c.func.value, ast.Name) else None
+            local_open = lname and any(isinstance(n, ast.Assign) and isinstance(n.value, ast.Call) and is_builtin_open(n.value, fi.module)
+                                       and any(isinstance(t, ast.Name) and t.id == lname for t in n.targets) for n in walk_body(fi.node))
+            if local_open:
+                R.ok(key, fi.where(c), "closes a file opened in the same function")
             else:
-                R.violation(key, where, "self.%s is closed on a path where its owner field self.%s has not been tested non-None: "
-                            "a caller-supplied stream would be closed" % (handle, owner))
+                R.violation(key, fi.where(c), "close() on %r, which is neither a package reader/file/writer object nor a file opened in this function: a "
+                            "stream supplied by the caller may be closed" % recv)
 
 
 def _alias_defs(fi, name, owners):
@@ -576,7 +683,14 @@ def _raising_methods(prog, fi, depth=3):
 @rule("RL8", "no failing acquisition or raise after a successful open() leaks the first handle", floor=2)
 def rl8(ctx, R):
     prog = ctx.prog
-    for q, owner_cls in sorted(OPEN_OWNER_FUNCS.items()):
+    owner_funcs = {}
+    for cq in OWNERS:
+        for mname, m in prog.cls(cq).methods.items():
+            if any(isinstance(c, ast.Call) and is_builtin_open(c, m.module) for c in walk_body(m.node)):
+                owner_funcs[m.qual] = cq
+    if not owner_funcs:
+        raise AnchorMissing("methods of %s that call open()" % sorted(OWNERS))
+    for q, owner_cls in sorted(owner_funcs.items()):
         fi = prog.func(q)
 
         raising_helpers = _raising_methods(prog, fi)
@@ -598,7 +712,8 @@ def rl8(ctx, R):
                           and isinstance(n.ast.value, ast.Call) and is_builtin_open(n.ast.value, fi.module)
                           and any(_self_attr(t) in OWNERS[owner_cls] for t in n.ast.targets))
         if not opens:
-            raise AnchorMissing("%s: self.<handle> = open(...) statements" % q)
+            R.undecided("%s::open() not stored in a handle field directly" % q, fi.where(), "open() results are not assigned to self.<handle> in this function")
+            continue
         for A in opens:
             handle = [_self_attr(t) for t in A.ast.targets if _self_attr(t)][0]
             after = cfg.reach([A], follow_exc=False)
